@@ -772,6 +772,7 @@ func (t *sourceTracer) DataQueue() []tracerMutation {
 
 	// copy and flush
 	ret := t.dataQueue
+	t.dataQueue = nil
 	t.dataLatest = nil
 
 	return ret
